@@ -11,8 +11,10 @@ import (
 	"strconv"
 	"strings"
 	"sync"
+	"sync/atomic"
 	"testing"
 	"testing/synctest"
+	"time"
 
 	"github.com/pion/turn/v5/verifharness/sim"
 )
@@ -94,10 +96,47 @@ func TestProp(t *testing.T) {
 
 		return
 	}
+	// In-binary wall-clock watchdog. A goroutine that waits forever for a sync.Mutex is not durably
+	// blocked for testing/synctest, so a leaked or deadlocked library mutex freezes the virtual clock
+	// and the case would hang until the driver's (long) watchdog. This goroutine runs outside any
+	// bubble: when a case exceeds its wall budget it dumps all stacks, reports the pion/turn
+	// goroutines parked in Mutex.Lock as a violation (or the case as inconclusive when there are
+	// none) and abandons the process; the driver restarts the remaining cases.
+	var caseStart atomic.Int64
+	var caseNo atomic.Int64
+	var watchRec atomic.Pointer[sim.Rec]
+	wall := time.Duration(envInt("VERIF_CASE_WALL", 45)) * time.Second
+	if tier == "thorough" {
+		wall = time.Duration(envInt("VERIF_CASE_WALL", 900)) * time.Second
+	}
+	go func() {
+		for {
+			time.Sleep(time.Second)
+			st := caseStart.Load()
+			if st == 0 || time.Since(time.Unix(0, st)) < wall {
+				continue
+			}
+			rec := watchRec.Load()
+			i := int(caseNo.Load())
+			wedged := mutexWedged()
+			if len(wedged) > 0 {
+				rec.Violate("mutex-wedged", firstFrame(wedged[0]), "case made no progress for %v of wall time; %d pion/turn goroutine(s) are parked in Mutex.Lock (a mutex was leaked or deadlocked): %s", wall, len(wedged), strings.Join(wedged, " || "))
+			} else {
+				rec.Inconclusive("case exceeded its wall budget of %v without a goroutine parked on a library mutex", wall)
+			}
+			emit(out, "RESULT "+rec.Result(i, seed, true).JSON())
+			emit(out, fmt.Sprintf("POISONED %d", i))
+			os.Exit(0)
+		}
+	}()
 	runOne := func(i int) {
 		emit(out, fmt.Sprintf("START %d", i))
 		rec := sim.NewRec(prop)
 		curRec = rec
+		watchRec.Store(rec)
+		caseNo.Store(int64(i))
+		caseStart.Store(time.Now().UnixNano())
+		defer caseStart.Store(0)
 		rng := rand.New(rand.NewSource(caseSeed(seed, prop, i)))
 		finish := func() {
 			if rec.Poisoned() {
@@ -229,3 +268,35 @@ func runBubble(t *testing.T, rec *sim.Rec, body func(t *testing.T)) {
 func inBubble(t *testing.T, body func(t *testing.T)) { runBubble(t, curRec, body) }
 
 var curRec *sim.Rec
+
+// mutexWedged lists goroutines with a pion/turn frame that are parked in sync.(*Mutex).Lock or
+// sync.(*RWMutex).Lock/RLock, as "frame < frame".
+func mutexWedged() []string {
+	buf := make([]byte, 8<<20)
+	buf = buf[:runtime.Stack(buf, true)]
+	var out []string
+	for _, g := range bytes.Split(buf, []byte("\n\n")) {
+		hdr, _, _ := bytes.Cut(g, []byte("\n"))
+		if !bytes.Contains(hdr, []byte("sync.Mutex.Lock")) && !bytes.Contains(hdr, []byte("sync.RWMutex")) && !bytes.Contains(hdr, []byte("semacquire")) {
+			continue
+		}
+		var frames []string
+		for _, l := range strings.Split(string(g), "\n") {
+			if strings.Contains(l, "verifharness") || strings.HasPrefix(l, "\t") || strings.HasPrefix(l, "created by") {
+				continue
+			}
+			if m := pionFn.FindString(l); m != "" {
+				frames = append(frames, strings.TrimPrefix(m, "github.com/pion/turn/v5"))
+			}
+		}
+		if len(frames) == 0 {
+			continue
+		}
+		if len(frames) > 3 {
+			frames = frames[:3]
+		}
+		out = append(out, strings.Join(frames, " < "))
+	}
+
+	return out
+}
